@@ -81,8 +81,15 @@ class Sched:
             # unwind: let the parent see the bound
             nxt = "parent" if "parent" in r else r[0]
         elif self.pos < len(self.choices):
-            nxt = r[self.choices[self.pos] % len(r)]
+            c = self.choices[self.pos]
             self.pos += 1
+            if c < 0:
+                # -1: follow the fair round-robin; -2 / -3: deviate from it by one / two places at this step (delay-bounded schedules)
+                nxt = r[(self.rr + (-c - 1)) % len(r)]
+                if c == -1:
+                    self.rr += 1
+            else:
+                nxt = r[c % len(r)]
         else:
             nxt = r[self.rr % len(r)]
             self.rr += 1
